@@ -20,8 +20,38 @@ CHUNK_TIMEOUT_S = 600
 
 
 def _chunk(args):
+    """Pool worker entry: every chunk is executed in a fresh fork of the worker,
+    which itself never executes a run, so a chunk always starts from import-time
+    process state and a failure can depend at most on the earlier runs of its
+    own chunk (they are attached to the violation record as `prefix`)."""
+    ctx = multiprocessing.get_context("fork")
+    a, b = ctx.Pipe(duplex=False)
+    p = ctx.Process(target=_chunk_child, args=(args, b))
+    p.start()
+    b.close()
+    try:
+        out = a.recv()
+    except EOFError:
+        out = None
+    p.join()
+    a.close()
+    if out is None:
+        raise HarnessError("chunk %s died (exit code %s): a step hung or the process was killed"
+                           % (args[3:5], p.exitcode))
+    return out
+
+
+def _chunk_child(args, conn):
+    try:
+        conn.send(_chunk_inner(args))
+    finally:
+        conn.close()
+
+
+def _chunk_inner(args):
     world, focus, batch_seed, lo, hi, keep_samples = args
     faulthandler.dump_traceback_later(CHUNK_TIMEOUT_S, exit=True)
+    history = []
     try:
         cls = kernel.get_world(world)
         out = {"stats": Counter(), "digests": [], "inter": set(), "abs_states": set(), "abs_trans": set(),
@@ -43,12 +73,15 @@ def _chunk(args):
             if kernel.nontrivial(cls, res, focus):
                 out["nontrivial"] += 1
                 out["digests"].append(res["digest"][:16])
+            prev = list(history)
+            history.append({"config": res["cfg"], "steps": res["steps"]})
             for n in res["notes"]:
                 if len(out["notes"]) < 10:
                     out["notes"].append("run %d: %s" % (i, n))
             if res["violations"]:
                 out["violations"].append({"index": i, "seed": seed, "cfg": res["cfg"], "steps": res["steps"],
-                                          "violations": res["violations"], "digest": res["digest"]})
+                                          "violations": res["violations"], "digest": res["digest"],
+                                          "prefix": prev})
             elif keep_samples and len(out["samples"]) < keep_samples and (
                     kernel.nontrivial(cls, res, focus) or i == hi - 1):
                 out["samples"].append({"run_index": i, "seed": seed, "steps": res["steps"],
